@@ -13,6 +13,7 @@ trap 'git -C /repo worktree remove --force "$W/wt" 2>/dev/null; rm -rf "$W" /tmp
 git -C /repo worktree add -q --detach "$W/wt" HEAD || exit 2
 for id in "${ids[@]}"; do
   prop=$(python3 -c "import json;print(json.load(open('seeded/$id/meta.json'))['property'])")
+  if python3 -c "import json,sys;sys.exit(0 if json.load(open('seeded/$id/meta.json')).get('detected_by','').startswith('(neutralised)') or json.load(open('seeded/$id/meta.json')).get('detected_by','')=='NOT DETECTED' else 1)"; then echo "$id: skipped (recorded as neutralised / outside the claim in meta.json)"; continue; fi
   git -C "$W/wt" checkout -q -- . ; git -C "$W/wt" clean -fdq
   if ! git -C "$W/wt" apply "$V/seeded/$id/patch.diff" 2>/dev/null; then echo "$id: patch does not apply"; fail=1; continue; fi
   out="$W/out.txt"; t0=$(date +%s)
